@@ -3,7 +3,7 @@
    DEFINITIONS ONLY.  The specification side (exact rational arithmetic, the
    printf reference, the oracles) is in DigitModelSpec.v.
 
-   The model describes the code AFTER the repairs findings/D28, D33, D41 .. D46, D48, D49.
+   The model describes the code AFTER the repairs findings/D28, D33, D41 .. D46, D48, D49, D94.
 
    Abstractions, stated explicitly:
    * BigInt<uint64, W> is modelled by its value in N.  Multiply / Divide /
@@ -680,7 +680,7 @@ Definition real_to_string (fi : finfo) (pre : list N) (number precision0 fmt : N
            let b0 := N.shiftr mantissa first_shift in
            do '(b1, times, shift1, lost) <-
              (if dg_max_pow5 <=? fl then
-                let max_index := if precision <? fi_maxcut fi then precision / dg_max_pow10 + 2 else mi in
+                let max_index := if precision <? fi_maxcut fi then precision / dg_max_pow10 + 3 else mi in
                 mul_loop 200 mi max_index b0 fl shift false
               else Ok (b0, fl, shift, false));
            do b2 <- (if negb (times =? 0) then big_mul mi b1 (pow5 times) else Ok b1);
